@@ -47,9 +47,17 @@ if __name__ == '__main__':
         code = main()
     except SystemExit:
         raise
+    except BrokenPipeError:
+        code = 2
     except BaseException as exc:   # never let a traceback look like a verdict
         traceback.print_exc()
-        print('ANALYSIS-ERROR %s: %s' % (type(exc).__name__, exc))
+        try:
+            print('ANALYSIS-ERROR %s: %s' % (type(exc).__name__, exc))
+        except BrokenPipeError:
+            pass
         code = 2
-    sys.stdout.flush()
+    try:
+        sys.stdout.flush()
+    except BrokenPipeError:
+        pass
     sys.exit(code)
